@@ -1,4 +1,5 @@
 import Pff.Model.DupDb
+import Pff.Proofs.DupDbRun
 /-!
 # C18 — with a hash database, replica repair reports OK only for hash-correct output
 
@@ -129,5 +130,92 @@ theorem C18_vote_preferred (bs : Nat) (Hf : Bytes → Nat × Nat) (r : Nat × Na
 theorem C18_uncovered_unknown (bs : Nat) (Hf : Bytes → Nat × Nat) (g : List (Nat × Bytes)) :
     (processGroupDb bs Hf none g).mark = .unknown := by
   rw [processGroupDb_eq]
+
+/-! ## the whole run (`dupWithDb`): every row of the report, the exit status -/
+
+/-- Every row marked hash-correct has the recorded hashes of its own path (at any depth), and a
+run that exits 0 has no row marked KO, no error code, and every covered path hash-correct. -/
+theorem C18_run_ok_sound (bs : Nat) (Hf : Bytes → Nat × Nat) (db : List (String × Nat × Nat)) (replicas : List Tree) :
+    (∀ row ∈ (dupWithDb bs Hf db replicas).rows, row.mark = .ok →
+        ∃ r, dbLookup db row.path = some r ∧ Hf row.out = r) ∧
+    ((dupWithDb bs Hf db replicas).exit = 0 →
+        ∀ row ∈ (dupWithDb bs Hf db replicas).rows, row.errcode = 0 ∧ row.mark ≠ .ko ∧
+          ∀ r, dbLookup db row.path = some r → Hf row.out = r) := by
+  refine ⟨?_, ?_⟩
+  · intro row hrow hok
+    obtain ⟨pg, _, rfl⟩ := mem_rows hrow
+    exact C18_ok_sound bs Hf (dbLookup db pg.1) pg.2 hok
+  · intro hexit row hrow
+    have herr := exit_zero_errcode hexit row hrow
+    obtain ⟨pg, _, rfl⟩ := mem_rows hrow
+    have hcov : ∀ r, dbLookup db pg.1 = some r →
+        Hf (processGroupDb bs Hf (dbLookup db pg.1) pg.2).out = r := by
+      intro r hr
+      rw [hr]
+      by_cases hne : Hf (processGroupDb bs Hf (some r) pg.2).out = r
+      · exact hne
+      · have h1 := (C18_ko_nonzero bs Hf r pg.2 hne).2
+        have h0 : (processGroupDb bs Hf (dbLookup db pg.1) pg.2).errcode = 0 := herr
+        rw [hr, h1] at h0
+        cases h0
+    refine ⟨herr, ?_, hcov⟩
+    intro hko
+    have hko' : (processGroupDb bs Hf (dbLookup db pg.1) pg.2).mark = .ko := hko
+    cases hl : dbLookup db pg.1 with
+    | none =>
+      rw [hl, C18_uncovered_unknown] at hko'
+      cases hko'
+    | some r =>
+      have hm := hcov r hl
+      rw [hl] at hko' hm
+      rw [processGroupDb_eq] at hko' hm
+      by_cases hr : Hf (pre bs Hf (some r) pg.2).1 = r
+      · simp [hr] at hko'
+      · simp [hr] at hm
+
+/-- A path not covered by the database is never reported hash-correct (nor KO). -/
+theorem C18_run_uncovered (bs : Nat) (Hf : Bytes → Nat × Nat) (db : List (String × Nat × Nat)) (replicas : List Tree) :
+    ∀ row ∈ (dupWithDb bs Hf db replicas).rows, dbLookup db row.path = none → row.mark = .unknown := by
+  intro row hrow hnone
+  obtain ⟨pg, _, rfl⟩ := mem_rows hrow
+  have hnone' : dbLookup db pg.1 = none := hnone
+  show (processGroupDb bs Hf (dbLookup db pg.1) pg.2).mark = .unknown
+  rw [hnone']
+  exact C18_uncovered_unknown bs Hf pg.2
+
+/-- The rows are the paths of the union of the replicas, each once, in walk order, with exactly
+the replicas that hold it (C07 for the run with a database). -/
+theorem C18_run_paths (bs : Nat) (Hf : Bytes → Nat × Nat) (db : List (String × Nat × Nat)) (replicas : List Tree)
+    (hs : ∀ t ∈ replicas, Sorted t) :
+    let r := dupWithDb bs Hf db replicas
+    (r.rows.map (·.path)).Pairwise (fun p q => pathLt p q = true) ∧
+    (∀ p, p ∈ r.rows.map (·.path) ↔ ∃ t ∈ replicas, p ∈ (walk t).map (·.1)) ∧
+    (∀ row ∈ r.rows, row.used = ((replicas.map walk).zipIdx).filterMap
+        (fun ci => if row.path ∈ ci.1.map (·.1) then some ci.2 else none)) := by
+  exact run_paths bs Hf db replicas hs
+
+/-- A covered path held by at least two replicas, of which one copy is hash-correct or whose vote
+is hash-correct, is written hash-correct and marked OK — whatever the first replica holds. -/
+theorem C18_run_restores (bs : Nat) (Hf : Bytes → Nat × Nat) (db : List (String × Nat × Nat)) (replicas : List Tree)
+    (hs : ∀ t ∈ replicas, Sorted t) (p : Path) (r : Nat × Nat)
+    (hdb : dbLookup db p = some r)
+    (copies : List Bytes)
+    (hcopies : copies = (replicas.map walk).filterMap (fun w => (w.find? (fun pc => pc.1 = p)).map (·.2)))
+    (h2 : 2 ≤ copies.length)
+    (h : (∃ c ∈ copies, Hf c = r) ∨ Hf (Pff.Vote.majorityVote bs copies).out = r) :
+    ∃ row ∈ (dupWithDb bs Hf db replicas).rows, row.path = p ∧ Hf row.out = r ∧ row.mark = .ok := by
+  obtain ⟨pg, hpg, hp, hcont⟩ := run_group replicas hs p copies hcopies (by omega)
+  refine ⟨mkRow bs Hf db pg, ?_, hp, ?_⟩
+  · rw [dupWithDb_rows]
+    exact List.mem_map_of_mem hpg
+  · have hlen : 2 ≤ pg.2.length := by
+      have : (pg.2.map (·.2)).length = copies.length := by rw [hcont]
+      rw [List.length_map] at this
+      omega
+    have := C18_vote_preferred bs Hf r pg.2 hlen (by rw [hcont]; exact h)
+    show Hf (processGroupDb bs Hf (dbLookup db pg.1) pg.2).out = r ∧
+      (processGroupDb bs Hf (dbLookup db pg.1) pg.2).mark = .ok
+    rw [hp, hdb]
+    exact this
 
 end Pff.DupDb
